@@ -140,20 +140,33 @@ def loadHead0 (acl : Acl) (fetch : Nat → OMap) (amount : Int) (L : Log) (h : N
   | .error .panic => .error .panic
   | .error _ => .ok L            -- a failed join is ignored by `Load`
 
-/-- One head of `Load(amount)` (after the `fix:` commit, finding F30): the fetched log is joined
+/-- One head of `Load(amount)` as it was after the F30 repair and before the F36 one (every fetched
+entry handed to `Join`): the fetched log is joined
 WITHOUT a trim; only when the merged log then LISTS more than `amount` entries is `Join(l, amount)`
 called a second time. Joining the same log again finds nothing new, so that second call is modelled as
 what is left of it: the trim of the listing to its last `amount` entries and the clock update
 (assumption recorded in DESIGN §7: a `Join` that adds nothing leaves the heads as they are; provable
 for logs that satisfy `Inv`, validated by the correspondence run on the others).
 `fetch h` is the bounded Fetcher of go-ipfs-log (a parameter; contract in DESIGN §7). -/
-def loadHead (acl : Acl) (fetch : Nat → OMap) (amount : Int) (L : Log) (h : Nat) : Except Err Log :=
+def loadHead1 (acl : Acl) (fetch : Nat → OMap) (amount : Int) (L : Log) (h : Nat) : Except Err Log :=
   let l := logOfEntries L.id (fetch h)
   match joinSize acl.canAppend L l.entries l.heads l.id (-1) with
   | .ok L' =>
     if amount > -1 && (values L').length > amount then (trim L' amount.toNat).map bumpClock else .ok L'
   | .error .panic => .error .panic
   | .error _ => .ok L            -- a failed join is ignored by `Load`
+
+/-- what `Load` keeps of a fetched log on a store that already holds a part of it: the entries the
+log does NOT hold (after the `fix:` commit, finding F36). `Join` does not walk through held entries
+(`difference` stops at them), so a fetched log whose head is held merged nothing of what lies below. -/
+def missingFetch (L : Log) (fetch : Nat → OMap) (h : Nat) : OMap :=
+  (fetch h).filter (fun e => !has L.entries e.hash)
+
+/-- One head of `Load(amount)`: `loadHead1` over the fetched entries the log does not hold yet. On a
+freshly opened store (the case of every restart) nothing is held and this is `loadHead1`
+(`loadHead_empty`). -/
+def loadHead (acl : Acl) (fetch : Nat → OMap) (amount : Int) (L : Log) (h : Nat) : Except Err Log :=
+  loadHead1 acl (missingFetch L fetch) amount L h
 
 /-- the pinned tree: `Join(l, amount)` whatever the sizes (finding F11) -/
 def loadHeadPinned (acl : Acl) (fetch : Nat → OMap) (amount : Int) (L : Log) (h : Nat) : Except Err Log :=
